@@ -39,6 +39,10 @@ type Viol struct {
 	History []string `json:"history,omitempty"`
 	Arg     string   `json:"arg,omitempty"`
 	Known   string   `json:"known,omitempty"` // id of the matching open known finding
+	// Expect (regression replays): the replay counts as reproduced only if the violation it produces
+	// mentions all of these - the recorded schedule may, on a restructured tree, run into something else
+	// (an open known finding, say), which is not the defect this replay guards against.
+	Expect []string `json:"expect,omitempty"`
 }
 
 // Result is what a worker returns for one job.
@@ -606,7 +610,15 @@ func replayOnce(c *Check, tier string, v *Viol) (bool, string) {
 	res := c.RunJob(tier, j, time.Time{})
 	for _, g := range res.Violations {
 		if g.Kind == v.Kind {
-			return true, g.Detail
+			all := true
+			for _, e := range v.Expect {
+				if !strings.Contains(g.Detail, e) {
+					all = false
+				}
+			}
+			if all {
+				return true, g.Detail
+			}
 		}
 	}
 	if len(res.Violations) > 0 {
